@@ -88,7 +88,7 @@ def monitor_ops(rng, s, n):
 
 def gen_config(rng, fam, out, i):
     ns = 2 if rng.random() < 0.25 else 1
-    avg = rng.choice([2, 2, 3]) if fam == "avg" else (rng.choice([1, 1, 1, 2, 3]) if fam == "abort" else 1)
+    avg = rng.choice([2, 2, 3]) if fam == "avg" else (rng.choice([1, 1, 1, 2, 3]) if fam in ("abort", "monitor") else 1)
     streams = [stream_line(rng, s, fam, avg) for s in range(ns)]
     fb = max(max(frame_bytes(d["w"], d["h"], d["type"]), acc_bytes(d["w"], d["h"]) if avg > 1 else 0) for d in streams)
     cap = int(fb * rng.choice([1.2, 1.5, 2.0, 2.5, 2.7, 3.3, 5.0])) + rng.randint(1, 9)
